@@ -76,7 +76,7 @@ def clo_shards(tier):
                     out.append({"edges": e, "place": pl, "kinds": ["msg", "signal"], "twice": 1})
                     out.append({"edges": e, "place": pl, "kinds": ["msg", "msg"], "layout": "tree"})
                     out.append({"edges": e, "place": pl, "kinds": ["msg", "msg"], "layout": "tree", "rev": 1})
-                if sum(e) >= 4 and pl[0] <= pl[1]:
+                if sum(e) >= 5 and pl in ([1, 3], [0, 1], [2, 3], [1, 1]):
                     for lay in ("tree", "tree_core"):
                         for kinds in (["module", "module"], ["host", "msg"]):
                             out.append({"edges": e, "place": pl, "kinds": kinds, "layout": lay, "rev": (sum(e) + pl[0]) % 2, "coredefs": 1})
